@@ -1217,6 +1217,14 @@ func compareSyms(a, b *Sym, hint string) cmpResult {
 	strs := map[string]bool{}
 	collectConsts(a, ints, strs)
 	collectConsts(b, ints, strs)
+	// a term that trims blanks is told apart from one that does not only by texts that carry blanks
+	for _, t := range []*Sym{a, b} {
+		t.walk(func(x *Sym) {
+			if x.Op == "pred" && strings.HasPrefix(x.Name, "trim") {
+				strs[" "] = true
+			}
+		})
+	}
 	var intC []int64
 	seenI := map[int64]bool{}
 	for c := range ints {
@@ -1309,6 +1317,27 @@ func compareSyms(a, b *Sym, hint string) cmpResult {
 			list := strC
 			if len(mine) > 0 {
 				list = variantsOf(mine)
+			}
+			if strs[" "] {
+				// some term trims blanks: texts that carry blanks belong to every string's candidates
+				extra := []string{" ", " q", "q ", " q "}
+				for l := range mine {
+					if l != "" && l != " " {
+						extra = append(extra, " "+l, l+" ")
+					}
+				}
+				sort.Strings(extra)
+				have := map[string]bool{}
+				for _, s := range list {
+					have[s] = true
+				}
+				list = append([]string{}, list...)
+				for _, s := range extra {
+					if !have[s] {
+						have[s] = true
+						list = append(list, s)
+					}
+				}
 			}
 			for _, s := range list {
 				cands[i] = append(cands[i], val{k: 's', s: s})
